@@ -31,11 +31,20 @@ def _work(job):
     solve.set_budget(tier)
     solve.take()
     solve.GROUP[0] = gname + '/'
+    try:
+        solve.SPILL[0] = open(_spill_path(os.getpid()), 'w')
+    except OSError:
+        solve.SPILL[0] = None
     t0 = time.time()
     info = {}
     try:
         mod = importlib.import_module('props.' + prop_id)
-        info = mod.run_group(args) or {}
+        if args == ('__frame__',):
+            # frame condition every per-call proof relies on: no mutable object is shared between derivative objects, calls
+            # or threads except the listed caches (the live scan of C09), so single-call contracts compose
+            info = importlib.import_module('props.C09').run_scan() or {}
+        else:
+            info = mod.run_group(args) or {}
     except (NeedsConcrete, Undecided, CutError) as e:
         solve.record('<group>', 'unknown', type(e).__name__, 0.0, None, 'engine', reason=str(e)[:500])
     except Exception:
@@ -43,6 +52,30 @@ def _work(job):
     obs = solve.take()
     solve.GROUP[0] = ''
     return gname, obs, info, time.time() - t0
+
+
+def _spill_path(pid):
+    import tempfile
+    return os.path.join(tempfile.gettempdir(), 'ndvc_spill_%d_%d.jsonl' % (os.getppid() if pid == os.getpid() else os.getpid(), pid))
+
+
+def _read_spill(pid):
+    """obligations a killed group had already recorded"""
+    path = _spill_path(pid)
+    out = []
+    try:
+        for ln in open(path):
+            try:
+                out.append(json.loads(ln))
+            except ValueError:
+                pass
+    except OSError:
+        pass
+    try:
+        os.unlink(path)
+    except OSError:
+        pass
+    return out
 
 
 def _child(job, conn):
@@ -86,12 +119,17 @@ def _run_jobs(jobs, procs, group_timeout):
                                      kind='engine', reason='worker process exited with %r' % p.exitcode)], {}, time.time() - t0)
             if res is None and time.time() - t0 > group_timeout:
                 p.kill()
-                res = (job[1], [dict(name=job[1] + '/<group>', status='unknown', backend='group-timeout', secs=0,
-                                     kind='engine', reason='group exceeded %.0f s wall-clock' % group_timeout)], {},
+                p.join(5)
+                res = (job[1], _read_spill(pid) + [dict(name=job[1] + '/<group>', status='unknown', backend='group-timeout', secs=0,
+                                                         kind='engine', reason='group exceeded %.0f s wall-clock' % group_timeout)], {},
                        time.time() - t0)
             if res is not None:
                 p.join(5)
                 rc.close()
+                try:
+                    os.unlink(_spill_path(pid))
+                except OSError:
+                    pass
                 del running[pid]
                 progressed = True
                 yield res
@@ -119,7 +157,9 @@ def run_check(prop_id, tier, seed, procs=None, only=None):
     t_start = time.time()
     sys.path.insert(0, ROOT)
     mod = importlib.import_module('props.' + prop_id)
-    groups = mod.groups(tier)
+    groups = list(mod.groups(tier))
+    if prop_id != 'C09' and getattr(mod, 'FRAME_SCAN', True):
+        groups.append(('frame:shared-state', ('__frame__',)))
     if only:
         groups = [g for g in groups if only in g[0]]
     procs = procs or int(os.environ.get('NDVC_PROCS', '12'))
@@ -204,7 +244,10 @@ def run_check(prop_id, tier, seed, procs=None, only=None):
             path = os.path.join(rdir, _safe(o['name']) + '.json')
             case = None
             try:
-                case = mod.replay_case(o) if hasattr(mod, 'replay_case') else None
+                if o['name'].startswith('frame:shared-state/'):
+                    case = importlib.import_module('props.C09').replay_case(o)
+                else:
+                    case = mod.replay_case(o) if hasattr(mod, 'replay_case') else None
             except Exception:
                 case = dict(error='replay_case failed: ' + traceback.format_exc()[-800:])
             doc = dict(property=prop_id, obligation=o['name'], verdict='refuted', backend=o.get('backend'),
